@@ -105,6 +105,17 @@ class Run:
         if force or len(self.samples) < self.max_samples:
             self.samples.append(jsonable(obj))
 
+    def progress(self, case):
+        """Record the case about to be executed, so that a crash of the process is attributed to it."""
+        path = os.environ.get('VERIF_PROGRESS')
+        if not path:
+            return
+        try:
+            with open(path, 'w') as f:
+                json.dump({'evaluations': self.evaluations, 'nontrivial': len(self.nontrivial), 'last_case': jsonable(case)}, f)
+        except Exception:
+            pass
+
     def count(self, name, n=1):
         self.counters[name] = self.counters.get(name, 0) + int(n)
 
